@@ -30,6 +30,8 @@ type aeadCase struct {
 	Seed   int64                  `json:"seed"`
 }
 
+var aeadHalfKey *aead.MiscreantCipher
+
 const b64url = "ABCDEFGHIJKLMNOPQRSTUVWXYZabcdefghijklmnopqrstuvwxyz0123456789-_"
 
 func aeadRun(c aeadCase, k1, k2 *aead.MiscreantCipher) M {
@@ -164,7 +166,11 @@ func aeadRun(c aeadCase, k1, k2 *aead.MiscreantCipher) M {
 	for i := 0; i < c.Repeat; i++ {
 		seen[seal(k1)] = true
 	}
-	return M{"kind": c.Kind, "genuine": []string{hx(s1), hx(s1b)}, "genuineOther": hx(s2), "openOtherKey": open(k2, s1),
+	halfKey := "err"
+	if aeadHalfKey != nil {
+		halfKey = open(aeadHalfKey, s1)
+	}
+	return M{"kind": c.Kind, "genuine": []string{hx(s1), hx(s1b)}, "genuineOther": hx(s2), "openOtherKey": open(k2, s1), "openHalfKey": halfKey,
 		"variants": variants, "repeatN": c.Repeat + 2, "repeatDistinct": len(seen), "raw": c}
 }
 
@@ -200,6 +206,20 @@ func init() {
 			return c
 		}
 		k1, k2 := key(11), key(22)
+		// a secret that agrees with k1's in its first half only (64-byte secrets: both halves are key material)
+		k3 := func() *aead.MiscreantCipher {
+			b := make([]byte, 64)
+			rand.New(rand.NewSource(11)).Read(b)
+			for i := 32; i < 64; i++ {
+				b[i] ^= 0x5a
+			}
+			c, err := aead.NewMiscreantCipher(b)
+			if err != nil {
+				panic(err)
+			}
+			return c
+		}()
+		aeadHalfKey = k3
 		idx := 0
 		emit := func(c aeadCase) {
 			o := aeadRun(c, k1, k2)
